@@ -1358,7 +1358,9 @@ impl std::fmt::Display for ArithExpr {
         match self {
             ArithExpr::Variable(name) => write!(f, "{name}"),
             ArithExpr::Constant(val) => write!(f, "{val}"),
-            ArithExpr::FloatConstant(bits) => write!(f, "{}", f64::from_bits(*bits)),
+            // `{:?}` always shows a decimal point or an exponent, so the text re-parses as a float
+            // (`{}` prints 2.0 as "2", which re-parses as the integer 2)
+            ArithExpr::FloatConstant(bits) => write!(f, "{:?}", f64::from_bits(*bits)),
             ArithExpr::Binary { op, left, right } => {
                 let parent_prec = op.precedence();
 
@@ -1476,7 +1478,8 @@ impl std::fmt::Display for Term {
             Term::Constant(val) => write!(f, "{val}"),
             Term::StringConstant(s) => write!(f, "\"{s}\""),
             Term::BoolConstant(b) => write!(f, "{b}"),
-            Term::FloatConstant(val) => write!(f, "{val}"),
+            // `{:?}`: keep the literal a float when the text is parsed again (2.0 -> "2.0", not "2")
+            Term::FloatConstant(val) => write!(f, "{val:?}"),
             Term::Placeholder => write!(f, "_"),
             Term::Arithmetic(expr) => write!(f, "{expr}"),
             Term::Aggregate(func, var) => {
@@ -1491,7 +1494,7 @@ impl std::fmt::Display for Term {
                 }
             }
             Term::VectorLiteral(values) => {
-                let vals: Vec<String> = values.iter().map(ToString::to_string).collect();
+                let vals: Vec<String> = values.iter().map(|v| format!("{v:?}")).collect();
                 write!(f, "[{}]", vals.join(", "))
             }
             Term::FunctionCall(func, args) => {
